@@ -11,7 +11,7 @@ def _pre(o0, o1, o2, k, reps):
     ok = 0 <= k <= P("K", 0) and 1 <= reps <= P("REPS", 1)
     for i, o in enumerate((o0, o1, o2)):
         if i < P("T", 2):
-            ok = ok and 0 <= o <= 1  # body outcome: return / raise
+            ok = ok and 0 <= o <= P("OUT", 2)  # body outcome: return / raise Fault / raise exactly Exception
         else:
             ok = ok and o == 0
     return ok
@@ -30,7 +30,9 @@ def _body(cs, o0, o1, o2, k, reps):
     if kind in ("generator", "suppressing"):
 
         @A.contextmanager
-        async def cm(tag):
+        async def cm(tag="default-tag", *, mode="default-mode"):
+            if tag != "x" or mode != "kw":
+                W.bad("decorator:manager-recreated-without-its-arguments")
             ctr[0] += 1
             me = ctr[0]
             gens.append(me)
@@ -43,7 +45,7 @@ def _body(cs, o0, o1, o2, k, reps):
                 log.append(("exit", me, e))
                 for _ in range(xsusp):
                     await Suspend(W)
-                if kind == "suppressing" and isinstance(e, Fault):
+                if kind == "suppressing" and isinstance(e, Exception):
                     return
                 raise
             else:
@@ -51,7 +53,7 @@ def _body(cs, o0, o1, o2, k, reps):
                 for _ in range(xsusp):
                     await Suspend(W)
 
-        deco = cm("x")
+        deco = cm("x", mode="kw")
     else:
 
         class Deco(A.ContextDecorator):
@@ -77,6 +79,7 @@ def _body(cs, o0, o1, o2, k, reps):
 
     outcomes = [o0, o1, o2]
     faults = [Fault("body-%d" % t) for t in range(3)]
+    plain = [Exception("plain-%d" % t) for t in range(3)]
     active = {}
 
     @deco
@@ -90,6 +93,8 @@ def _body(cs, o0, o1, o2, k, reps):
         log.append(("body-end", t, rep))
         if outcomes[t] == 1:
             raise faults[t]
+        if outcomes[t] == 2:
+            raise plain[t]
         return ("result", t, rep)
 
     results = {}
@@ -99,7 +104,7 @@ def _body(cs, o0, o1, o2, k, reps):
         for rep in range(reps):
             try:
                 out.append(("ok", await func(t, rep)))
-            except Fault as e:
+            except Exception as e:
                 out.append(("exc", e))
         results[t] = out
 
@@ -119,11 +124,12 @@ def _body(cs, o0, o1, o2, k, reps):
     for t in range(NT):
         if t in results:
             for rep, r in enumerate(results[t]):
-                if outcomes[t] == 1:
+                if outcomes[t] >= 1:
+                    want = faults[t] if outcomes[t] == 1 else plain[t]
                     if kind == "suppressing":
                         if r != ("ok", None):
                             ok = fail("decorator:suppressed-exception-not-suppressed", (t, r)) and ok
-                    elif not (r[0] == "exc" and r[1] is faults[t]):
+                    elif not (r[0] == "exc" and r[1] is want):
                         ok = fail("decorator:body-exception-not-propagated", (t, r)) and ok
                 elif r != ("ok", ("result", t, rep)):
                     ok = fail("decorator:result-not-returned", (t, r)) and ok
@@ -156,7 +162,7 @@ def _body(cs, o0, o1, o2, k, reps):
         enters = [e[1] for e in log if e[0] == "enter"]
         if not cancelled:
             got_faults = [v for v in exits.values() if v is not None]
-            want = [faults[t] for t in range(NT) if outcomes[t] == 1 for _ in range(reps)]
+            want = [(faults[t] if outcomes[t] == 1 else plain[t]) for t in range(NT) if outcomes[t] >= 1 for _ in range(reps)]
             if len(got_faults) != len(want) or any(not any(g is w for w in want) for g in got_faults):
                 ok = fail("decorator:exit-did-not-receive-body-exception", (got_faults, want)) and ok
             if sorted(exits) != sorted(enters):
@@ -180,7 +186,7 @@ def _grid():
 
     rnd = random.Random(61)
     T = P("T", 2)
-    return [tuple([rnd.randint(0, 3) for _ in range(NCH)] + [rnd.randint(0, 1) if i < T else 0 for i in range(3)] + [rnd.randint(0, P("K", 0)), rnd.randint(1, P("REPS", 1))]) for _ in range(200)]
+    return [tuple([rnd.randint(0, 3) for _ in range(NCH)] + [rnd.randint(0, P("OUT", 2)) if i < T else 0 for i in range(3)] + [rnd.randint(0, P("K", 0)), rnd.randint(1, P("REPS", 1))]) for _ in range(200)]
 
 
 GRID = {"h_deco": _grid}
@@ -197,8 +203,8 @@ def jobs(tier):
     for kind in ("generator", "decorator-class", "suppressing"):
         add(kind=kind, T=2, ES=1, BS=1, XS=1)
         add(kind=kind, T=1, ES=1, BS=1, XS=1, REPS=3)
-        add(kind=kind, T=2, ES=1, BS=1, XS=1, K=3)
-        add(kind=kind, T=3, ES=(0 if q else 1), BS=1, XS=0)
+        add(kind=kind, T=2, ES=1, BS=1, XS=1, K=3, OUT=1)
+        add(kind=kind, T=3, ES=(0 if q else 1), BS=1, XS=0, OUT=(1 if q else 2))
         if not q:
             add(kind=kind, T=2, ES=1, BS=2, XS=1, REPS=2)
             add(kind=kind, T=3, ES=1, BS=1, XS=1)
@@ -206,7 +212,7 @@ def jobs(tier):
 
 
 BOUNDS = {
-    "quick": "all interleavings of 2..3 concurrent calls of one decorated coroutine function with suspensions in enter, body and exit; body outcome return/raise per call (symbolic); manager built by contextmanager, a ContextDecorator subclass, or suppressing; 1..3 repeated sequential calls (symbolic count); first caller cancelled at its k-th suspension (k<=3)",
+    "quick": "all interleavings of 2..3 concurrent calls of one decorated coroutine function with suspensions in enter, body and exit; body outcome return / raise an Exception subclass / raise exactly Exception per call (symbolic); manager created with positional and keyword arguments; manager built by contextmanager, a ContextDecorator subclass, or suppressing; 1..3 repeated sequential calls (symbolic count); first caller cancelled at its k-th suspension (k<=3)",
     "thorough": "3 calls with suspensions everywhere, 2 suspensions in the body, repeated concurrent calls",
 }
 OUTSIDE = ["more than 3 concurrent calls", "ContextDecorator subclasses that override _recreate_cm"]
